@@ -550,6 +550,15 @@ func c19GenProg(r *hx.Rng) *c19Prog {
 			}
 			if r.Intn(3) == 0 {
 				c.Disabled = sc.ref("bool", r.Intn(2) == 0)
+			} else if ci > 0 && !used["GATE"] && r.Intn(5) == 0 {
+				// a call whose ONLY consumer is a disabled modifier
+				gate := &c19Call{Dec: callees[0].name, Alias: "GATE"}
+				for _, in := range callees[0].ins {
+					gate.Binds = append(gate.Binds, c19Bind{in.Name, sc.exp(in.T, 0)})
+				}
+				used["GATE"] = true
+				pl.Calls = append(pl.Calls, gate)
+				c.Disabled = "GATE.flag"
 			}
 			pl.Calls = append(pl.Calls, c)
 			for _, o := range cal.outs {
@@ -877,9 +886,10 @@ func c19ErrKind(err error) string {
 // ------------------------------------------------------------ gen
 
 // Case lines:
-//   P <idx> <files> <ast> <top>                          a compiling program
-//   E <idx> <edit: kind callable param new note> <status> <filesB|-> <astB|->
-//   T <idx> <edit ...> <status> <filesC|-> <astC|->      the round trip: edit, then its inverse
+//
+//	P <idx> <files> <ast> <top>                          a compiling program
+//	E <idx> <edit: kind callable param new note> <status> <filesB|-> <astB|->
+//	T <idx> <edit ...> <status> <filesC|-> <astC|->      the round trip: edit, then its inverse
 func c19Gen(tier string, r *hx.Rng) {
 	c19Silence()
 	defer c19Cleanup()
